@@ -43,6 +43,7 @@ pub struct RunFacts {
     pub drain_panics: u64,
     pub scoped_out: u64,
     pub compared: u64,
+    pub op_grid: [[u32; 5]; 17],
 }
 
 pub fn build_scenario(
@@ -487,6 +488,7 @@ pub fn collect_facts(sc: &Scenario, r: &EquivRun, facts: &mut RunFacts) {
             sc.ops[st.op_index - 1].op.kind_id()
         };
         sig = fnv1a(sig, &[kind, st.out.tag as u8, st.epilogue as u8]);
+        facts.op_grid[kind as usize % 17][st.out.tag as usize % 5] += 1;
         if st.op_index > 0 && st.out.tag == Tag::Ok && st.out.obs.len() > 2 {
             facts.ok_answers += 1;
         }
